@@ -2,19 +2,24 @@
 # usage: confirm.sh <worktree name under /tmp/seed> <seeded id, e.g. C03a>
 # Confirms an agent's seeded change: demo fails with it and passes without it; pinned suite (guard off) still
 # matches BASELINE.json with it.  Copies patch/demo/notes to /verif/seeded/<id>/ and writes confirm.log there.
+# (No git stash: worktrees share one stash.)
 wt=/tmp/seed/$1; id=$2
 out=/verif/seeded/$id; mkdir -p "$out"
-cp "$wt/_seed/patch.diff" "$wt/_seed/demo.py" "$out/" 2>/dev/null
+cp "$wt/_seed/demo.py" "$out/" 2>/dev/null
 cp "$wt/_seed/NOTES.md" "$out/agent_notes.md" 2>/dev/null
+[ -f "$out/patch.diff" ] || cp "$wt/_seed/patch.diff" "$out/patch.diff"
 {
 echo "== $(date -u) confirm $id in $wt"
+git -C "$wt" checkout -- src
+echo "-- demo WITHOUT the change:"
+( cd "$wt" && PYTHONPATH=$wt/src /venv/bin/python _seed/demo.py >/tmp/seed/$1.demo_without.log 2>&1; echo "exit=$?"; tail -2 /tmp/seed/$1.demo_without.log )
+git -C "$wt" apply "$wt/_seed/patch.diff" || echo "!! own patch does not apply in its worktree"
+echo "-- worktree diff: $(git -C "$wt" diff --stat -- src | tail -1)"
 echo "-- demo WITH the change:"
 ( cd "$wt" && PYTHONPATH=$wt/src /venv/bin/python _seed/demo.py >/tmp/seed/$1.demo_with.log 2>&1; echo "exit=$?" ; tail -3 /tmp/seed/$1.demo_with.log )
-echo "-- demo WITHOUT the change (git stash):"
-( cd "$wt" && git stash -q && PYTHONPATH=$wt/src /venv/bin/python _seed/demo.py >/tmp/seed/$1.demo_without.log 2>&1; echo "exit=$?"; tail -2 /tmp/seed/$1.demo_without.log; git stash pop -q )
-echo "-- patch applies to /repo HEAD:"
+echo "-- patch (as kept in /verif/seeded/$id) applies to /repo HEAD:"
 ( cd /repo && git apply --check "$out/patch.diff" && echo "applies cleanly" )
 echo "-- pinned suite with the change (guard off), compared with BASELINE.json:"
 /venv/bin/python /verif/harness/baseline.py "$wt" 2>&1 | tail -4
 } > "$out/confirm.log" 2>&1
-tail -12 "$out/confirm.log"
+tail -14 "$out/confirm.log"
